@@ -346,16 +346,18 @@ def run(ctx, cases, ref=False):
 
 
 def spec_selftest(ctx, items, dist, ref=False):
-    """PrintedOK must not be vacuous: outputs it accepted are damaged (mantissa moved by two units of
+    """PrintedOK must not be vacuous: outputs it accepted are damaged (mantissa moved by twelve units of
     the rounding place; one more printed decimal) and must then be rejected"""
     lines, meta = [], []
     for base, p, spec in items[:200]:
         clipped = (not spec["pivotZero"]) and spec["place"] not in (spec["p0"], spec["p0"] + 1)
         if clipped:
             continue
-        a = dict(p, mv=str(int(p["mv"]) + 2))
+        # 12 units: when rounding may carry, the spec also accepts the next coarser place, of which
+        # 2 fine units are only 0.2 unit (a thorough-tier run met that: 1 case in 1.2 million)
+        a = dict(p, mv=str(int(p["mv"]) + 12))
         lines.append(dict(base, cmd="print_spec", printed=a))
-        meta.append(("value moved by 2 units", base, a))
+        meta.append(("value moved by 12 units", base, a))
         if not spec["pivotZero"] and spec["place"] == spec["p0"]:
             b = dict(p, mv=str(int(p["mv"]) * 10), me=str(int(p["me"]) * 10), dv=p["dv"] + 1,
                      de=p["de"] + 1)
